@@ -337,7 +337,9 @@ Fixpoint canon_i (cx : ictx) (p n : byte) (i : inline) {struct i} : bool :=
     chain tbl (canon_i (cx_set_encl cx ((x7e, 2) :: x_encl cx))) x7e l x7e
   (* code spans: non-empty, printable ASCII or the non-ASCII letters, no line endings; in a table
      cell no backslash (GFM 4.10 turns backslash-pipe into a pipe there) *)
-  | ICode t => nonempty t && scan printable 0 t && (negb tbl || negb (mem_byte x5c t))
+  | ICode t => nonempty t && scan printable 0 t && (negb tbl || negb (mem_byte x5c t)) &&
+               (* 6.1: a backtick string is neither preceded nor followed by a backtick *)
+               negb (beqb p x60) && negb (beqb n x60)
   | ILink l d =>
     negb (x_in_link cx) && dest_ok d && caret_ok cx tbl l &&
     chain tbl (canon_i (cx_link cx)) x5b l x5d
@@ -355,7 +357,8 @@ Fixpoint canon_i (cx : ictx) (p n : byte) (i : inline) {struct i} : bool :=
     end &&
     chain tbl (canon_i (if img then cx_img cx else cx_link cx)) x5b l x5d
   | IAuto email u => negb (x_in_link cx) && (if email then email_scan 0 u else auto_url_ok u)
-  | IFoot lb => x_fn_ok cx && mem_bytes lb (x_fnlabels cx)
+  (* a footnote reference directly followed by [ would read as a full reference link (6.3) *)
+  | IFoot lb => x_fn_ok cx && mem_bytes lb (x_fnlabels cx) && negb (beqb n x5b)
   end.
 
 Definition canon_inls (cx : ictx) (p : byte) (l : list inline) (n : byte) : bool :=
@@ -950,6 +953,7 @@ Definition std_opts : opts :=
    per-item copy of the list data) *)
 Fixpoint merge_text (l : list node) : list node :=
   match l with
+  | Node (Text []) _ [] :: r => merge_text r      (* empty text nodes (left by stripped trailing spaces) *)
   | Node (Text a) _ [] :: r =>
     match merge_text r with
     | Node (Text b) _ [] :: r' => Node (Text (a ++ b)) sp0 [] :: r'
